@@ -492,8 +492,10 @@ func (e *SpecEnv) index(n *SIndex) Value {
 		x.assumeWF(e.st, v)
 		return v
 	case KMap:
-		_, val := x.mapGet(e.st, base, e.coerceKey(idx, base.T.Underlying().(*types.Map).Key()))
-		return val
+		mt := base.T.Underlying().(*types.Map)
+		present, val := x.mapGet(e.st, base, e.coerceKey(idx, mt.Key()))
+		// Go semantics: the zero value when the key is absent
+		return x.iteValue(e.st, present, val, x.tc.zero(x, mt.Elem()))
 	case KStr:
 		x.d.fun("strat", []string{sStr, sInt}, sBV8)
 		return Value{K: KBV8, T: types.Typ[types.Uint8], S: "(strat " + base.S + " " + e.asInt(idx) + ")"}
